@@ -242,6 +242,9 @@ def rules(rep, facts):
         from .rules_c07 import r3_promotion
         r3_promotion(rep, facts)
         rep.relabel('C07/R3', 'C06/R11', 'nothing the formatting visitors touch drops out of the printed text: ')
+        from .rules_c07 import r3b_empty_tables
+        r3b_empty_tables(rep, facts)
+        rep.relabel('C07/R3b', 'C06/R14', 'an empty table stays in the printed text: ')
     if 'toml_datetime' in facts.crates and 'parse' in feats:
         # a date-time the API can hold prints with Display and has to decode again — through the document grammar and, on the serde route,
         # through the standalone parser: both must accept every field value the other accepts (e.g. the leap second :60)
